@@ -1,6 +1,7 @@
 package eng
 
 import (
+	"errors"
 	"fmt"
 	"html"
 	"io"
@@ -155,6 +156,26 @@ func (t traceReqSpec) build() *http.Request {
 	return r
 }
 
+// goneRW is the writer of a client that went away: it takes max bytes, then every Write fails.
+type goneRW struct {
+	h   http.Header
+	max int
+}
+
+func (w *goneRW) Header() http.Header { return w.h }
+func (w *goneRW) WriteHeader(int)     {}
+func (w *goneRW) Write(b []byte) (int, error) {
+	n := len(b)
+	if n > w.max {
+		n = w.max
+	}
+	w.max -= n
+	if n < len(b) {
+		return n, errors.New("write: broken pipe")
+	}
+	return n, nil
+}
+
 var traceChunks = []string{"<script>", "a&b", `"q"`, "'s'", ">", "plain", "<b>x</b>", "é", "&amp;", "line\r\nbreak"}
 
 func c18Helper(c *Ctx) {
@@ -183,6 +204,18 @@ func c18Helper(c *Ctx) {
 			}
 		}
 		withBody := r.Bool()
+		if r.Chance(1, 3) {
+			// the client before this one went away in the middle of its answer: its writer takes a few bytes (or none) and
+			// fails from then on. Nothing of that answer belongs into the next one.
+			gone := &goneRW{h: http.Header{}, max: r.Intn(3) * 10}
+			prev := traceReqSpec{Method: "TRACE", Path: "/previous-client/" + ref.Pick(r, traceChunks), Host: "previous.example", Header: map[string]string{"X-Previous": "secret-of-the-previous-client"},
+				Body: strings.Repeat("previous ", r.Intn(20))}
+			func() {
+				defer func() { recover() }()
+				mux.Trace(gone, prev.build(), r.Bool())
+			}()
+			c.Class("helper_after_a_failed_write")
+		}
 		rw := mon.NewRW()
 		var pan any
 		func() {
